@@ -258,6 +258,9 @@ def check(col, prog, tier, profile, fixture=None):
         for st in Is.final_states:
             ret = _nf(util.ret_term(st))
             ok = ret[0] == "load" and util.index_into_field(ret[2], SZ) is not None and ret[2][2][0] == "call" and ret[2][2][1] in (find.path, find.key)
+            # ... of the vertex asked about: `self.par(0)` answers with the size of another component
+            fargs = [x for x in ret[2][2][2] if not (isinstance(x, tuple) and x and x[0] == "mem")] if ok else []
+            ok = ok and len(fargs) == 2 and fargs[1] == ("param", 2, Is.names.get(2))
             if ok:
                 col.ok("D4" + sfx, size_b.loc(), "%s|returns-size-of-root" % fk(size_b), tstr(ret))
             else:
